@@ -37,7 +37,7 @@ type FuncResult struct {
 func (P *Program) newCtx(fn *ssa.Function) *Ctx {
 	return &Ctx{prog: P, fn: fn, declared: map[string]string{}, assumed: map[string]bool{}, inlined: map[string]bool{},
 		strConsts: map[string]string{}, oblSeq: map[string]int{}, curReach: "true",
-		seenTypes: map[string]bool{}, seenIfaces: map[string]bool{}, phiConds: map[phiKey]string{}, atCallSeen: map[*AtClause]bool{}}
+		seenTypes: map[string]bool{}, seenIfaces: map[string]bool{}, phiConds: map[phiKey]string{}, atCallSeen: map[*AtClause]bool{}, curTopBlock: -1, curEdgeFrom: -1}
 }
 
 // VerifyFunc generates all obligations of fn against its contract (which may be nil: safety only).
@@ -139,6 +139,9 @@ func (P *Program) VerifyFunc(fn *ssa.Function) (res *FuncResult) {
 	for _, ex := range exits {
 		c.curReach = ex.reach
 		c.curFrame = ex.fr
+		c.curGroup = ""
+		c.curTopBlock = ex.topBlock
+		c.curEdgeFrom = ex.edgeFrom
 		switch ex.kind {
 		case "return":
 			if ex.fr != fr {
@@ -148,6 +151,8 @@ func (P *Program) VerifyFunc(fn *ssa.Function) (res *FuncResult) {
 			if con == nil {
 				continue
 			}
+			c.curGroup = fmt.Sprintf("%s#exit%d", name, returns)
+			first := len(c.obls)
 			env := penv(ex.st)
 			env.cells = true // locals (final values) are visible to postconditions; parameters keep their entry values
 			res := &Val{T: fn.Signature.Results()}
@@ -203,6 +208,33 @@ func (P *Program) VerifyFunc(fn *ssa.Function) (res *FuncResult) {
 					}
 				}
 			}
+			// one conjunction for the whole exit: tried first, members only when it fails
+			if members := c.obls[first:]; len(members) > 3 {
+				var gs []string
+				for _, m := range members {
+					if m.Reach != ex.reach || m.ExpectSat {
+						gs = nil
+						break
+					}
+					gs = append(gs, m.Goal)
+				}
+				if gs != nil {
+					last := members[len(members)-1]
+					head := &Obligation{Name: c.curGroup + "[all]", Func: last.Func, Kind: "group", Goal: and(gs...), Reach: ex.reach,
+						NAsserts: len(c.asserts), NDecls: len(c.decls), Src: fmt.Sprintf("conjunction of the %d obligations of this exit", len(members)),
+						Block: last.Block, EdgeFrom: last.EdgeFrom, Group: c.curGroup, GroupHead: true, Pos: last.Pos}
+					c.obls = append(c.obls, head)
+				} else {
+					for _, m := range members {
+						m.Group = ""
+					}
+				}
+			} else {
+				for _, m := range c.obls[first:] {
+					m.Group = ""
+				}
+			}
+			c.curGroup = ""
 		case "panic":
 			c.atAsserts(fr, ex, "panic")
 			if con != nil && con.MayPanic {
@@ -228,6 +260,8 @@ func (P *Program) VerifyFunc(fn *ssa.Function) (res *FuncResult) {
 		}
 	}
 	c.curReach = "true"
+	c.curTopBlock = -1
+	c.curEdgeFrom = -1
 	_ = returns
 	if con != nil {
 		for _, a := range con.Asserts {
@@ -398,9 +432,13 @@ func (r *FuncResult) SMTx(o *Obligation, withModel bool, qf bool) string {
 		sb.WriteString(d)
 		sb.WriteByte('\n')
 	}
-	for _, a := range c.asserts[:o.NAsserts] {
+	rel := r.relevantBlocks(o)
+	for i, a := range c.asserts[:o.NAsserts] {
 		if qf && (strings.Contains(a, "(forall ") || strings.Contains(a, "(exists ")) {
 			continue
+		}
+		if rel != nil && i < len(c.assertTags) && c.assertTags[i] >= 0 && !rel[c.assertTags[i]] {
+			continue // made while executing a block that cannot precede the obligation's block
 		}
 		sb.WriteString("(assert ")
 		sb.WriteString(a)
@@ -428,12 +466,29 @@ func (r *FuncResult) SMTx(o *Obligation, withModel bool, qf bool) string {
 	return sb.String()
 }
 
+// groupWanted: the head of a group is run when any of its members is wanted.
+func groupWanted(results []*FuncResult, head *Obligation, want func(*Obligation) bool) bool {
+	if want == nil {
+		return true
+	}
+	for _, r := range results {
+		for _, o := range r.Obligations {
+			if !o.GroupHead && o.Group == head.Group && want(o) {
+				return true
+			}
+		}
+	}
+	return false
+}
+
 type DischargeOpts struct {
-	Tier     string
-	TimeoutS int
-	WorkDir  string
-	Workers  int
-	Keep     bool
+	noGroups  bool
+	onlyHeads bool
+	Tier      string
+	TimeoutS  int
+	WorkDir   string
+	Workers   int
+	Keep      bool
 }
 
 func safeFile(s string) string {
@@ -458,8 +513,43 @@ func DischargeAll(results []*FuncResult, want func(*Obligation) bool, opt Discha
 	}
 	var jobs []job
 	n := 0
+	// phase 1: group heads (one conjunction per function exit); members of a discharged group are done
+	if !opt.noGroups {
+		var heads []*FuncResult
+		headWant := func(o *Obligation) bool {
+			if !o.GroupHead {
+				return false
+			}
+			return true
+		}
+		_ = heads
+		sub := opt
+		sub.noGroups = true
+		sub.onlyHeads = true
+		DischargeAll(results, func(o *Obligation) bool { return headWant(o) && groupWanted(results, o, want) }, sub)
+		okGroup := map[string]bool{}
+		for _, r := range results {
+			for _, o := range r.Obligations {
+				if o.GroupHead && o.Result != nil && o.Result.Status == "unsat" {
+					okGroup[o.Group] = true
+				}
+			}
+		}
+		for _, r := range results {
+			for _, o := range r.Obligations {
+				if !o.GroupHead && o.Group != "" && okGroup[o.Group] && o.Result == nil && !o.Decided {
+					hr := SolverResult{Status: "unsat", Solver: "group"}
+					o.Result = &hr
+					o.Decided = true
+				}
+			}
+		}
+	}
 	for _, r := range results {
 		for _, o := range r.Obligations {
+			if o.GroupHead && !opt.onlyHeads {
+				continue
+			}
 			if want != nil && !want(o) {
 				continue
 			}
@@ -669,4 +759,34 @@ func (c *Ctx) checkInvariants(fr *Frame, ex *exitInfo, name string, props []stri
 		}
 		c.oblige("invariant", fmt.Sprintf("%s#invariant[%s]", name, lbl(inv)), inv.Label, ps, g.Term, ex.site.Pos(), "package invariant preserved: "+inv.Src)
 	}
+}
+
+// relevantBlocks: the top-level blocks that can execute before obligation o's block (CFG ancestors,
+// plus the block itself). Assertions made in other blocks only constrain symbols of other paths.
+func (r *FuncResult) relevantBlocks(o *Obligation) map[int]bool {
+	fn := r.ctx.fn
+	if o.Block < 0 || o.Block >= len(fn.Blocks) {
+		return nil
+	}
+	rel := map[int]bool{o.Block: true}
+	var work []*ssa.BasicBlock
+	start := fn.Blocks[o.Block]
+	if o.EdgeFrom >= 0 && o.EdgeFrom < len(fn.Blocks) {
+		// executed for one incoming edge only: other predecessors are irrelevant
+		rel[o.EdgeFrom] = true
+		work = append(work, fn.Blocks[o.EdgeFrom])
+	} else {
+		work = append(work, start)
+	}
+	for len(work) > 0 {
+		b := work[len(work)-1]
+		work = work[:len(work)-1]
+		for _, p := range b.Preds {
+			if !rel[p.Index] {
+				rel[p.Index] = true
+				work = append(work, p)
+			}
+		}
+	}
+	return rel
 }
